@@ -786,8 +786,11 @@ func (vm *VirtualMachine) pop() object.Object {
 }
 
 func (vm *VirtualMachine) push(obj object.Object) {
+	// Store before moving the stack pointer: when the stack is full this
+	// panics while sp still refers to a valid slot, so that the frames being
+	// unwound (resumeFrame) can still pop.
+	vm.stack[vm.sp+1] = obj
 	vm.sp++
-	vm.stack[vm.sp] = obj
 }
 
 func (vm *VirtualMachine) swap(pos int) {
